@@ -159,6 +159,10 @@ impl<I: FangProc> FangProc for DynProc<I> {
 // handlers
 
 fn handler_response(id: u32, params: &[&str], req: &Request) -> Response {
+    // (wave 18, C14) handlers whose id is 3 mod 5 panic: whatever answers in their place is a response like any other
+    if PANICKING.with(|e| e.get()) && id % 5 == 3 {
+        panic!("scripted handler panic (handler {id})");
+    }
     let status = if ERRORING.with(|e| e.get()) && id % 4 == 0 { ohkami::Status::InternalServerError } else { ohkami::Status::OK };
     let mut res = Response::new(status).with_text(format!("h{id}|{}", params.join("|")));
     res.headers.set().x("X-Handler", id.to_string()).x("X-In", format!("[{}]", render_in(req)));
@@ -236,6 +240,8 @@ fn leak(s: &str) -> &'static str {
 thread_local! {
     /// C14: handlers whose id is a multiple of 4 answer 500 (an erroring handler)
     pub static ERRORING: std::cell::Cell<bool> = const { std::cell::Cell::new(false) };
+    /// C14: handlers whose id is 3 mod 5 panic
+    pub static PANICKING: std::cell::Cell<bool> = const { std::cell::Cell::new(false) };
     /// C14: what some handlers put into `Access-Control-Allow-Origin` themselves (None: they do not)
     pub static PRESET_ORIGIN: std::cell::RefCell<Option<String>> = const { std::cell::RefCell::new(None) };
 }
